@@ -51,8 +51,10 @@ type World struct {
 	keys []*keyEntry
 	bufs []*bufEntry
 
-	identYOdd    int // -1 unknown; convention observed for IsYOdd(identity)
-	scribbleObs  bool // the harness overwrites every value its own observations obtain
+	identYOdd    int    // -1 unknown; convention observed for IsYOdd(identity)
+	scribbleObs  bool   // the harness overwrites every value its own observations obtain
+	lastGoodEnc  []byte // the encoding the last successful decode was given
+	lastGoodObs  string // ... and what it decoded to
 	mutatedSince bool
 
 	// which (byte position, nibble, index 0..15) windows the constant-time
